@@ -1466,6 +1466,60 @@ def gen_design(rng, need_rects=False):
 
 
 # --------------------------------------------------------------------------
+# boundary values of the attributes in the netlists the builders are fed with
+# --------------------------------------------------------------------------
+# the ends of what a module may have (Module: 0 <= min_wh <= 1 <= max_wh)
+AR_BOUNDARY = [[0, F(3)], [F(0), F(3)], [F(0), 1], [0, F(5, 2)], [F(0), F(16)], [1, 1], [F(1), F(1)], [F(1, 4), 1],
+               [F(1), F(4)], [0, 4], [F(0), F(1)]]
+AR_NEUTRAL = [F(1, 2), F(2)]
+
+
+def boundary_ratios(rng, case):
+    """Some soft modules get an aspect-ratio interval at the ends of the legal range ([0, x], [1, 1], [x, 1], [1, x]).
+    The module receives it through its public setter after the netlist is loaded (the producers are fed with the
+    OBJECT; that the reader takes such an interval is C04's business), the model reads it from the document."""
+    mods = case["doc"]["Modules"]
+    soft = [k for k, i in mods.items() if isinstance(i, dict) and "area" in i and not nc.doc_hard_true(i)]
+    if not soft:
+        return case
+    picked = rng.sample(soft, min(len(soft), rng.choice([1, 1, 2, 3])))
+    doc = copy.deepcopy(case["doc"])
+    sets = {}
+    for k in picked:
+        ar = list(rng.choice(AR_BOUNDARY[:5] if not sets else AR_BOUNDARY))       # the first one with a lower end of 0
+        doc["Modules"][k]["aspect_ratio"] = ar
+        sets[k] = ar
+    return dict(case, doc=doc, ar_set=sets)
+
+
+def load_design(case):
+    """the netlist object a builder is fed with: Netlist(document), then the intervals of case['ar_set'] through
+    Module.aspect_ratio's setter (the document handed to the reader has a plain interval in their place)"""
+    sets = case.get("ar_set") or {}
+    doc = case["doc"]
+    if sets:
+        doc = copy.deepcopy(doc)
+        for k in sets:
+            if k in doc.get("Modules", {}):
+                doc["Modules"][k]["aspect_ratio"] = list(AR_NEUTRAL)
+    n, v = nc.load(to_py(doc))
+    if n is not None and sets:
+        from frame.geometry.geometry import AspectRatio
+        for k, ar in sets.items():
+            if k in doc.get("Modules", {}):
+                n.get_module(k).aspect_ratio = AspectRatio(float(ar[0]), float(ar[1]))
+    return n, v
+
+
+def gen_boundary(rng, prod):
+    for _ in range(40):
+        case = boundary_ratios(rng, gen_solnet(rng) if prod == "solnet" else gen_legal(rng))
+        if case.get("ar_set"):
+            return case
+    return case
+
+
+# --------------------------------------------------------------------------
 # rect_io.solution_to_netlist
 # --------------------------------------------------------------------------
 def gen_solnet(rng):
@@ -1485,7 +1539,7 @@ def gen_solnet(rng):
 
 def run_solnet(case):
     from tools.rect.rect_io import solution_to_netlist
-    n, v = nc.load(to_py(case["doc"]))
+    n, v = load_design(case)
     if n is None:
         return {"given": False}
     src = nc.netlist_obs(n)
@@ -1669,7 +1723,7 @@ def gen_legal(rng):
 
 def run_legal(case):
     import tools.legalfloor.legalfloor as lf
-    n, v = nc.load(to_py(case["doc"]))
+    n, v = load_design(case)
     if n is None:
         return {"given": False}
     src = nc.netlist_obs(n)
@@ -1818,6 +1872,9 @@ def shrink(case):
     elif p in ("solnet", "legal"):
         for d in nc.shrink_doc(case["doc"]):
             c = dict(case, doc=d)
+            if c.get("ar_set"):
+                c["ar_set"] = {k: v for k, v in c["ar_set"].items() if isinstance(d.get("Modules"), dict)
+                               and isinstance(d["Modules"].get(k), dict) and d["Modules"][k].get("aspect_ratio") == v}
             if "result" in c:
                 c["result"] = {k: v for k, v in c["result"].items() if k in d.get("Modules", {})}
             yield c
@@ -1851,7 +1908,7 @@ def dist_key(case):
         return "floorset/" + ("terminals-as-modules" if case["tam"] else "terminals")
     if p == "alloc" and case.get("grid"):
         return "alloc/grid-" + case["grid"][1]
-    return p
+    return p + ("/boundary-ratios" if case.get("ar_set") else "")
 
 
 def extreme_cases(rng, quick):
@@ -1964,7 +2021,8 @@ def run(ctx, out, replay=None):
                 "named edges, synthetic FloorSet instances (single-trunk orthogonal polygons, pins on/off the border, both "
                 "terminal modes, with/without density), solution_to_netlist on accepted random netlists with synthetic box "
                 "results, get_netlist on allocations, legalfloor models built (not solved) from accepted netlists "
-                "(with modules of two congruent abutting rectangles); each producer is called twice; every document goes "
+                "(with modules of two congruent abutting rectangles; a stream of both with soft modules whose aspect-ratio "
+                "interval, set on the loaded object, is at the ends of the legal range: [0, x], [1, 1], [x, 1], [1, x]); each producer is called twice; every document goes "
                 "back through the text, the file (by name and as an open stream) and the tree; netlists are reloaded and "
                 "rewritten; non-trivial = at least two regions/cells/modules/pins, netgen inside its domain")
     rng = ctx.rng
@@ -1989,6 +2047,10 @@ def run(ctx, out, replay=None):
     for k, c in enumerate(ext):
         body.insert(min(len(body), (k + 1) * step + k), c)
     cases = cases[:head] + body
+    # boundary values of the attributes in the netlists the builders are fed with (own stream: the cases above do not move)
+    rng3 = random.Random(f"C19-boundary-{ctx.seed}")
+    for k in range(16 if quick else 160):
+        cases.append(gen_boundary(rng3, "solnet" if k % 2 == 0 else "legal"))
     if os.environ.get("C19_ONLY"):      # development aid: a subset of the producers
         cases = [c for c in cases if c["prod"] in os.environ["C19_ONLY"].split(",")]
     _CLOCK["impl"] = 0.0
